@@ -15,6 +15,12 @@ RT_NOTE = ("Theorems are about the Lean model (GoCo/Runtime/*.lean) of seq/seq.g
            "seq package in-process). Trusted: Lean kernel, axioms propext/Quot.sound, the harness and driver, Go's own semantics "
            "of closures and calls. Not modelled: allocation, the Go call stack (see C17), goroutines.")
 
+CC_NOTE = ("Theorems are about the Lean model (GoCo/Compile/*.lean) of the rewriter and about an executable semantics of mini-Go; "
+           "both are hand-written. Tie: on every run the real compiler is run on ~1000 (quick) generated generator bodies; its intermediate "
+           "and final outputs are parsed back and compared with the model's output as ASTs, compiler panics are compared by class, and the "
+           "generated packages are built and run next to a goroutine-based reference coroutine executing the source. Trusted: Lean kernel, "
+           "the harness (renderer, parse-back, reference coroutine, VM), go build, Go's semantics of the generated code.")
+
 PROPS = {
     "C08": {
         "module": "GoCo.Props.C08",
@@ -26,7 +32,7 @@ PROPS = {
             "GoCo.C08.loop_no_post_before_first", "GoCo.C08.loop_first_iteration",
             "GoCo.C08.loop_post_after_normal_and_continue",
         ],
-        "corr": ["k1"],
+        "corr": [("k1", None)],
         "level_text": "Kernel-checked refinement theorem: for ALL combinator terms (arbitrary stateful, panicking thunks), stores, loop budgets and consumer histories the machine model of seq.go equals the reference interpreter; the named laws are theorems. The model is validated against the real package on every run (K1).",
         "level_note": RT_NOTE,
         "technique": "Lean 4 refinement proof (machine model of seq.go refines reference interpreter) + differential correspondence model vs real seq",
@@ -44,11 +50,44 @@ PROPS = {
             "GoCo.C09.false_means_exhausted", "GoCo.C09.exhaustion_permanent",
             "GoCo.C09.exhaustion_permanent_history", "GoCo.C09.send_resumes_with_value", "GoCo.C09.send_autostart",
         ],
-        "corr": ["k1"],
+        "corr": [("k1", None)],
         "level_text": "Kernel-checked simulation: for ALL operation histories over MoveNext/Current/Send/Result the generator-object model answers as the abstract iterator over the resumption tree; each clause of the property is a theorem about the abstract iterator. Validated against the real package on every run (K1: all histories up to length 3/4 on every small term).",
         "level_note": RT_NOTE,
         "technique": "Lean 4 simulation proof over operation histories + differential correspondence model vs real seq",
         "design_ref": "DESIGN.md 3.1, 6/C09",
         "modelled": "seq/seq.go 176-231 (generator{started,next,current,result}, MoveNext/Current/Send/Result) over the machine",
+    },
+    "C01": {
+        "module": "GoCo.Props.C01",
+        "theorems": ["GoCo.C01.C01_pass0", "GoCo.MG.p0Stmts_sem", "GoCo.C07.C07_eta_sound"],
+        "corr": [("cc", "k4"), ("cc", "k5"), ("cc", "k6a"), ("cc", "k6b"), ("cc", "k6c")],
+        "search": ["cc:k6a", "cc:k6d"],
+        "level_text": "Kernel-checked theorems about the Lean model of the rewriter (pass0 and eta-reduction preserve the coroutine semantics of every statement; pass2/pass3 theorem under construction, see DESIGN.md) over an executable semantics of mini-Go for source (Yield suspends) and target (seq combinators, Go's eager argument evaluation). The model's compile and optimize functions are tied to the real compiler by AST equality on every generated program (K4, K5), both semantics are tied to real executions (K6b: reference coroutine; K6c: the real generated code), and K6a compares the real compiled generator with the source on a goroutine-based reference coroutine under every truncation.",
+        "level_note": CC_NOTE,
+        "technique": "Lean 4 proofs over a model of the rewriter + AST-equality correspondence with the real compiler + run-vs-reference-coroutine oracle",
+        "design_ref": "DESIGN.md 3.2, 6/C01",
+        "modelled": "rewriter/yield_rewrite.go, yield_block.go, return.go, yield_ast.go, optimize.go as Lean functions over a mini-Go AST (mode A: atoms A/P/V/C/T over a VM); go/types, go/packages, printing and the Go semantics of the generated code are not modelled",
+    },
+    "C07": {
+        "module": "GoCo.Props.C07",
+        "theorems": ["GoCo.C07.C07_eta_sound", "GoCo.MG.etaStmts_sem", "GoCo.MG.etaSExp_sem", "GoCo.MG.etaThunk_sem"],
+        "corr": [("cc", "k5"), ("cc", "k6d"), ("cc", "k6c")],
+        "search": ["cc:k6d", "cc:k6a"],
+        "level_text": "Kernel-checked: eta-reduction of generated thunks preserves the semantics of every statement and Seq expression (all programs, no guard). Delay elision is carried by K5 (the Lean optimiser applied to the REAL intermediate AST equals the real final AST) and K6d (the real intermediate package and the real final package produce identical event traces, under every truncation).",
+        "level_note": CC_NOTE + " Eta-reduction of user closures (D9) is outside the mode-A grammar: see C13.",
+        "technique": "Lean 4 proof (eta soundness) + AST-equality correspondence of the optimiser model on real intermediate output + intermediate-vs-final run comparison",
+        "design_ref": "DESIGN.md 6/C07",
+        "modelled": "rewriter/optimize.go (optimizeDelayCall, etaReduction) on the mini-Go target AST; import clean-up is not modelled",
+    },
+    "C11": {
+        "module": "GoCo.Props.C01",
+        "theorems": ["GoCo.MG.p0Stmts_sem"],
+        "corr": [("cc", "k4"), ("cc", "k6e")],
+        "search": ["cc:k6e"],
+        "level_text": "The Lean model `compile` is a total function with every Go assert/panic of the rewriter as an explicit error value; K4 compares, per generated program, model result and real result (AST, or panic class) and K6e compares `go build` of every generated package with the model's decidable `Buildable` predicate. Theorem `compile_total` (InSubset p -> compile p = ok t and Buildable t) is under construction; on the pinned tree it is false (findings D10a-d, D11a) and is replaced by the replays of the known findings.",
+        "level_note": CC_NOTE + " That a generated package type-checks is go/types' judgement and is observed (go build of every generated package), not proved.",
+        "technique": "Lean 4 model of the rewriter with explicit error values + AST/panic-class correspondence with the real compiler + go build of every output",
+        "design_ref": "DESIGN.md 6/C11",
+        "modelled": "all assert/panic sites of rewriter/yield_rewrite.go, yield_block.go, return.go, etc.go reachable from the mode-A grammar",
     },
 }
